@@ -1,0 +1,89 @@
+/*
+ * Copyright (C) 2021 The poly network Authors
+ * This file is part of The poly network library.
+ *
+ * The  poly network  is free software: you can redistribute it and/or modify
+ * it under the terms of the GNU Lesser General Public License as published by
+ * the Free Software Foundation, either version 3 of the License, or
+ * (at your option) any later version.
+ *
+ * The  poly network  is distributed in the hope that it will be useful,
+ * but WITHOUT ANY WARRANTY; without even the implied warranty of
+ * MERCHANTABILITY or FITNESS FOR A PARTICULAR PURPOSE.  See the
+ * GNU Lesser General Public License for more details.
+ * You should have received a copy of the GNU Lesser General Public License
+ * along with The poly network .  If not, see <http://www.gnu.org/licenses/>.
+ */
+
+package common
+
+import (
+	"bytes"
+	"fmt"
+
+	amino "github.com/tendermint/go-amino"
+	"github.com/tendermint/tendermint/crypto/merkle"
+)
+
+// The wire form of an "iavl:v" proof operator (github.com/tendermint/iavl ValueOp / RangeProof), decoded here only
+// to look at its shape.
+type iavlValueOp struct {
+	Proof *iavlRangeProof
+}
+
+type iavlRangeProof struct {
+	LeftPath   []iavlInnerNode
+	InnerNodes [][]iavlInnerNode
+	Leaves     []iavlLeafNode
+}
+
+type iavlInnerNode struct {
+	Height  int8
+	Size    int64
+	Version int64
+	Left    []byte
+	Right   []byte
+}
+
+type iavlLeafNode struct {
+	Key       []byte
+	ValueHash []byte
+	Version   int64
+}
+
+const proofOpIAVLValue = "iavl:v"
+
+var iavlShapeCdc = amino.NewCodec()
+
+// CheckIavlExistenceProof accepts an operator list only if every IAVL value operator in it is a plain existence
+// proof of its own key: one leaf, whose key is the operator's key, no further paths, and no inner node that names
+// both children. The range-proof verifier of the pinned iavl release hashes an inner node from its left child
+// alone when both are set, while it takes a non-empty right child as "more leaves follow": a further leaf can be
+// grafted onto a genuine proof without changing the root, and VerifyValue then finds a key and value the source
+// chain never stored.
+func CheckIavlExistenceProof(ops []merkle.ProofOp) error {
+	for _, op := range ops {
+		if op.Type != proofOpIAVLValue {
+			continue
+		}
+		var vop iavlValueOp
+		if err := iavlShapeCdc.UnmarshalBinaryLengthPrefixed(op.Data, &vop); err != nil {
+			return fmt.Errorf("CheckIavlExistenceProof, decode iavl value operator error: %v", err)
+		}
+		if vop.Proof == nil {
+			return fmt.Errorf("CheckIavlExistenceProof, iavl value operator without proof")
+		}
+		if len(vop.Proof.Leaves) != 1 || len(vop.Proof.InnerNodes) != 0 {
+			return fmt.Errorf("CheckIavlExistenceProof, iavl proof is not a single-key existence proof")
+		}
+		if !bytes.Equal(vop.Proof.Leaves[0].Key, op.Key) {
+			return fmt.Errorf("CheckIavlExistenceProof, iavl proof leaf does not belong to the operator key")
+		}
+		for _, node := range vop.Proof.LeftPath {
+			if len(node.Left) != 0 && len(node.Right) != 0 {
+				return fmt.Errorf("CheckIavlExistenceProof, iavl proof inner node names both children")
+			}
+		}
+	}
+	return nil
+}
